@@ -579,8 +579,10 @@ fn execute_write_count(db: &core::Db, cypher: &str, params: &Params) -> ApiResul
         ));
     }
     let prepared = prepare(cypher).map_err(|e| ApiError::from_query_message(&e.to_string()))?;
-    let snapshot = db.snapshot();
+    // Take the writer lock first: the snapshot the statement reads must not be older than the
+    // state its writes are applied to, or a concurrent auto-commit statement's update is lost.
     let mut txn = db.begin_write();
+    let snapshot = db.snapshot();
     let (_rows, write_count) = prepared
         .execute_mixed(&snapshot, &mut txn, params)
         .map_err(|e| ApiError::from_query_message(&e.to_string()))?;
